@@ -167,3 +167,62 @@ def c13_predecessor_of_successor(u, k, j):
     q = u // ipow(4, k - 1)
     assert 0 <= q and q < 4 and fm[q] == u, "u is the (leading nucleotide of u)-th predecessor of each of its successors"
 ''', requires={"order": "k >= 1", "vertex": "u < ipow(4, k)", "column": "j < 4"})
+
+
+# ---------------------------------------------------------------------------------------------------------------- C07
+C07_SUM = '''
+    cs = codes(s)
+    ct = codes(t)
+'''
+
+harness("c07_substitution_changes_check", {"s": "dna", "p": "nat", "j": "nat", "n": "nat"}, '''
+def c07_substitution_changes_check(s, p, j, n):
+    t = s[:p] + "ACGT"[j] + s[p + 1:]
+    a = set_vt(s, n)
+    b = set_vt(t, n)
+    cs = codes(s)
+    ct = codes(t)
+    ssum_split(A(cs), 0, P(cs, 0), P(cs, p), P(cs, len(s)))
+    ssum_split(A(cs), 0, P(cs, p), P(cs, p + 1), P(cs, len(s)))
+    ssum_split(A(ct), 0, P(ct, 0), P(ct, p), P(ct, len(s)))
+    ssum_split(A(ct), 0, P(ct, p), P(ct, p + 1), P(ct, len(s)))
+    ssum_ext(A(ct), 0, P(ct, 0), A(cs), 0, P(cs, 0), p)
+    ssum_ext(A(ct), 0, P(ct, p + 1), A(cs), 0, P(cs, p + 1), len(s) - p - 1)
+    assert ssum(ct, 0, len(s)) == ssum(cs, 0, len(s)) - cs[p] + j, "sum-after-substitution"
+    assert a[0] != b[0], "first check symbol differs"
+    assert a != b, "a single substitution always changes the check"
+''', requires={"position": "p < len(s)", "nucleotide": "j < 4 and j != code(s[p])", "check-length": "n >= 1"})
+
+harness("c07_insertion_changes_check", {"s": "dna", "p": "nat", "j": "nat", "n": "nat"}, '''
+def c07_insertion_changes_check(s, p, j, n):
+    t = s[:p] + "ACGT"[j] + s[p:]
+    a = set_vt(s, n)
+    b = set_vt(t, n)
+    cs = codes(s)
+    ct = codes(t)
+    ssum_split(A(cs), 0, P(cs, 0), P(cs, p), P(cs, len(s)))
+    ssum_split(A(ct), 0, P(ct, 0), P(ct, p), P(ct, len(s) + 1))
+    ssum_split(A(ct), 0, P(ct, p), P(ct, p + 1), P(ct, len(s) + 1))
+    ssum_ext(A(ct), 0, P(ct, 0), A(cs), 0, P(cs, 0), p)
+    ssum_ext(A(ct), 0, P(ct, p + 1), A(cs), 0, P(cs, p), len(s) - p)
+    assert ssum(ct, 0, len(s) + 1) == ssum(cs, 0, len(s)) + j, "sum-after-insertion"
+    assert a[0] != b[0], "first check symbol differs"
+    assert a != b, "a single insertion of C, G or T always changes the check"
+''', requires={"position": "p <= len(s)", "nucleotide": "1 <= j and j < 4", "check-length": "n >= 1"})
+
+harness("c07_deletion_changes_check", {"s": "dna", "p": "nat", "n": "nat"}, '''
+def c07_deletion_changes_check(s, p, n):
+    t = s[:p] + s[p + 1:]
+    a = set_vt(s, n)
+    b = set_vt(t, n)
+    cs = codes(s)
+    ct = codes(t)
+    ssum_split(A(cs), 0, P(cs, 0), P(cs, p), P(cs, len(s)))
+    ssum_split(A(cs), 0, P(cs, p), P(cs, p + 1), P(cs, len(s)))
+    ssum_split(A(ct), 0, P(ct, 0), P(ct, p), P(ct, len(s) - 1))
+    ssum_ext(A(ct), 0, P(ct, 0), A(cs), 0, P(cs, 0), p)
+    ssum_ext(A(ct), 0, P(ct, p), A(cs), 0, P(cs, p + 1), len(s) - p - 1)
+    assert ssum(ct, 0, len(s) - 1) == ssum(cs, 0, len(s)) - cs[p], "sum-after-deletion"
+    assert a[0] != b[0], "first check symbol differs"
+    assert a != b, "a single deletion of C, G or T always changes the check"
+''', requires={"position": "p < len(s)", "nucleotide": "code(s[p]) >= 1", "check-length": "n >= 1"})
